@@ -270,10 +270,20 @@ def upsample_array(y_min, y_max, x_min, x_max, scale, seed):
     c = _coord_from(y_min, y_max, x_min, x_max, scale)
     sets = [("for_limits_and_scale", _array_from(y_min, y_max, x_min, x_max, scale)),
             ("from coordinate set", ArrayTriangles(indices=np.asarray(c.indices), vertices=np.asarray(c.vertices)))]
+    # "a triangle set" in the vertex-array representation need not be a lattice, and its vertices may be integers held in an
+    # integer array (odd coordinate sums: the edge midpoints are half-integers)
+    r = np.random.default_rng(seed)
+    a, b = int(r.integers(1, 6)) * 2 + 1, int(r.integers(1, 6)) * 2 + 1
+    oy, ox = int(r.integers(-4, 5)), int(r.integers(-4, 5))
+    quad = np.array([[oy, ox], [oy + a, ox], [oy, ox + b], [oy + a, ox + b + 2]], dtype=np.int64)
+    sets.append(("integer-dtype vertices", ArrayTriangles(indices=np.array([[0, 1, 2], [1, 3, 2]]), vertices=quad)))
+    sets.append(("float copy of the integer vertices", ArrayTriangles(indices=np.array([[0, 1, 2], [1, 3, 2]]), vertices=quad.astype(float))))
     for label, t in sets:
         parents = np.asarray(t.triangles, float)
         if len(parents) == 0:
             continue
+        if "integer" in label:
+            scale = float(min(a, b))
         v0, i0 = np.array(t.vertices, copy=True), np.array(t.indices, copy=True)
         up = t.up_sample()
         if not np.array_equal(v0, t.vertices) or not np.array_equal(i0, t.indices):
